@@ -26,9 +26,10 @@ const (
 	hPingFailed
 	hFSRO
 	hCrash
+	hPingFailedCrash // ping failed AND the (per-process cached) crash-recovery flag is set
 )
 
-var c05HealthNames = []string{"ok", "absent", "ping-failed", "fs-readonly", "crash-recovered"}
+var c05HealthNames = []string{"ok", "absent", "ping-failed", "fs-readonly", "crash-recovered", "ping-failed+crash-recovered"}
 
 const (
 	mNone = iota
@@ -190,6 +191,9 @@ func c05Run(r *vt.Run, c c05Case) {
 				st.IsFileSystemReadonly = true
 			case hCrash:
 				st.DaemonState = &nodestate.DaemonState{StartTime: now, RecoveryTime: now.Add(time.Second), CrashRecovery: true}
+			case hPingFailedCrash:
+				st.PingOk = false
+				st.DaemonState = &nodestate.DaemonState{StartTime: now, RecoveryTime: now.Add(time.Second), CrashRecovery: true}
 			}
 			w.ZK.Put(vns+"/health/h1", jsonStr(st))
 		}
@@ -217,7 +221,8 @@ func c05Run(r *vt.Run, c c05Case) {
 				r.Violate("C05/0-engine", fmt.Sprintf("panics=%v unknown=%v in %s", w.Panics, w.Unknown, where), c)
 				return
 			}
-			bad := tk.Health == hAbsent || tk.Health == hPingFailed || tk.Health == hFSRO
+			bad := tk.Health == hAbsent || tk.Health == hPingFailed || tk.Health == hFSRO || tk.Health == hPingFailedCrash
+			exempt := tk.Health == hFSRO || tk.Health == hPingFailedCrash && c.Resetup // delay and replication gates not required
 			if bad {
 				if badSince < 0 {
 					badSince = start
@@ -255,13 +260,13 @@ func c05Run(r *vt.Run, c c05Case) {
 			if !bad && !crashPath {
 				fail("3-master-health-bad", "the master's health record is good (and no crash-recovery restart with resetup enabled)")
 			}
-			if bad && tk.Health != hFSRO && c.Delay > 0 {
+			if bad && !exempt && c.Delay > 0 {
 				// upper bound of the time the record has been bad for this manager
 				if end-badSince < time.Duration(c.Delay)*time.Second {
 					fail("3-failover-delay", fmt.Sprintf("the record has been bad for at most %v (delay %ds)", end-badSince, c.Delay))
 				}
 			}
-			if bad && tk.Health != hFSRO {
+			if bad && !exempt {
 				running, others := 0, 2
 				for i, k := range c.Reps {
 					_ = i
@@ -336,7 +341,7 @@ func checkC05(r *vt.Run) {
 				for maint := mNone; maint <= mLightLeaving; maint++ {
 					for pend := pNone; pend <= pAuto; pend++ {
 						reduced := !full && (maint != mNone || pend != pNone)
-						for health := hOK; health <= hCrash; health++ {
+						for health := hOK; health <= hPingFailedCrash; health++ {
 							for _, mup := range []bool{true, false} {
 								for r2 := rRunning; r2 <= rDead; r2++ {
 									for r3 := rRunning; r3 <= rDead; r3++ {
